@@ -254,3 +254,48 @@ def c20e(ctx):
     ok = bool(nc) and bool(rets) and all(any(g.dominates(n, r) for n, _ in nc) for r in rets)
     ctx.check(ok, 'RequestError.render:no-store', 'every error response leaves render() with cache_headers(no_cache=True)', fn,
               fail='an error response can be returned without no-store headers')
+
+
+@rule('C20.f', floor=3)
+def c20f(ctx):
+    """results that must not be cached are never stored: every cache store of a creator is guarded by the cacheable flag
+    of what was fetched"""
+    T = 'mapproxy/cache/tile.py'
+    for qn, flag in ((T + ':TileCreator._create_single_tile', 'source.cacheable'), (T + ':TileCreator._create_meta_tile', 'meta_tile_image.cacheable')):
+        fn = ctx.fn(qn)
+        g = fn.cfg
+        stores = g.find(lambda x: is_call(x, 'self.cache.store_tile', 'self.cache.store_tiles'))
+        ok = bool(stores) and all(g.guarded(n, lambda at: at.op is None and unparse(at.expr) == flag, True) for n, x in stores)
+        ctx.check(ok, '%s:store-only-cacheable' % fn.short, 'the store is guarded by `%s`' % flag, fn,
+                  fail='an uncacheable result (an error image produced by on_error handling) is written to the cache, or cacheable ones are not')
+    fn = ctx.fn(T + ':TileCreator._create_single_tile')
+    sets = [s for s in fn.walk() if isinstance(s, ast.Assign) and unparse(s.targets[0]) == 'tile.cacheable']
+    ok = bool(sets) and all(unparse(s.value) == 'source.cacheable' for s in sets)
+    ctx.check(ok, 'TileCreator._create_single_tile:flag-propagated', 'the tile carries the cacheable flag of the fetched image (it reaches the response headers)', fn,
+              fail='the cacheable flag of the fetched image is not copied to the tile: an error tile is served with public cache headers')
+    sm = ctx.fn(T + ':split_meta_tiles')
+    tc = [x for x in sm.walk() if is_call(x, 'Tile')]
+    ok = bool(tc) and all(unparse(keyword(x, 'cacheable') or ast.Constant(value=None)) == '%s.cacheable' % sm.params[0] for x in tc)
+    ctx.check(ok, 'split_meta_tiles:flag-propagated', 'tiles cut from a meta tile inherit its cacheable flag', sm,
+              fail='tiles cut from an uncacheable meta tile are marked cacheable')
+
+
+@rule('C20.g', floor=2)
+def c20g(ctx):
+    pd = ctx.fn('mapproxy/util/times.py:parse_httpdate')
+    g = pd.cfg
+    nones = g.find_stmts(lambda s: isinstance(s, ast.Return) and const_value(s.value, 1) is None)
+    isnone = lambda at: at.op == '==' and 'date' in at.text and 'None' in at.text
+    ok = bool(nones) and all(g.guarded(n, isnone, True) for n in nones)
+    others = [r for r in g.find_stmts(lambda s: isinstance(s, ast.Return)) if r not in nones]
+    ok = ok and bool(others) and all(g.guarded(r, isnone, False) for r in others)
+    ctx.check(ok, 'parse_httpdate:none-iff-unparsable', 'None is returned exactly when the date could not be parsed', pd,
+              fail='parse_httpdate returns a timestamp for an unparsable date (or None for a valid one): If-Modified-Since is evaluated against garbage')
+    mc = ctx.fn('mapproxy/response.py:Response.make_conditional')
+    defs = Defs(mc.node)
+    ts = [v for v, sel in defs.of('timestamp')]
+    ok = len(ts) == 1 and is_call(ts[0], 'parse_httpdate') and isinstance(ts[0].args[0], ast.Name)
+    if ok:
+        d = defs.of(ts[0].args[0].id)
+        ok = len(d) == 1 and is_call(d[0][0], 'environ.get') and const_value(d[0][0].args[0]) == 'HTTP_IF_MODIFIED_SINCE'
+    ctx.check(ok, 'Response.make_conditional:ims-source', 'the date compared is parse_httpdate(If-Modified-Since header)', mc)
